@@ -22,7 +22,7 @@ ASSUMPTIONS = ['observers are the ones listed in the property (config_str is cov
 EXPLANATION = ('Lean theorems about State.clear (totality, pristine fields, observational freshness for every observer '
                'of the model) + differential run + fresh-interpreter comparison of the post-clear tail.')
 
-CONST_NAMES = ['X', 'd.X', 'e.d.X', 'Y', 'd.Y', 'q.Z']
+CONST_NAMES = ['X', 'd.X', 'e.d.X', 'Y', 'd.Y', 'q.Z', 'gin.REQUIRED']   # the last only in interactive mode
 
 
 def gen_case(rng):
@@ -74,6 +74,19 @@ def gen_case(rng):
       tail.append({'op': 'macrolookup', 'name': cname})
       tail.append({'op': 'bind', 'scope': '', 'sel': cons['_selector'], 'arg': rng.choice(cls),
                    'val': {'const': cname}, '_form': 'text', 'block': False, '_maybe_ambiguous': True})
+      call = G.gen_call(rng, cons, [], w_bad=0.0)
+      call['op'] = 'ecall'
+      call['args'] = call['args'][:1] if '_selfname' in call else []
+      call['kwargs'] = []
+      tail += [call, {'op': 'log'}]
+  # after a clear that also drops the constants, gin.REQUIRED is the marker again (even if it had been
+  # redefined in interactive mode): a parameter left at %gin.REQUIRED makes the call fail
+  if clear['constants']:
+    cons = rng.choice(regs)
+    cls = [n for n, k in G.param_classes(cons).items() if k == 'valid']
+    if cls and all(p[1] is not None or p[0] in ('self', 'cls') for p in cons['sig']['pos'] + cons['sig']['kwonly']):
+      tail.append({'op': 'bind', 'scope': '', 'sel': cons['_selector'], 'arg': rng.choice(cls),
+                   'val': {'const': 'gin.REQUIRED'}, '_form': 'text', 'block': False})
       call = G.gen_call(rng, cons, [], w_bad=0.0)
       call['op'] = 'ecall'
       call['args'] = call['args'][:1] if '_selfname' in call else []
